@@ -21,6 +21,20 @@ type extraFn struct {
 	Call func(obj unsafe.Pointer, a []string) ([]any, [][]byte)
 }
 
+// extraAny makes the argument for an interface{} parameter from its textual
+// form: "b:<text>" a caller-owned []byte, "i:<n>" an int64, "nil", else a string.
+func extraAny(in *[][]byte, s string) any {
+	switch {
+	case strings.HasPrefix(s, "b:"):
+		return extraBytes(in, s[2:])
+	case strings.HasPrefix(s, "i:"):
+		return extraInt(s[2:])
+	case s == "nil":
+		return nil
+	}
+	return s
+}
+
 // extraBytes makes the caller's buffer for a []byte parameter.
 func extraBytes(in *[][]byte, s string) []byte {
 	b := []byte(s)
